@@ -142,7 +142,7 @@ void reb_read_simulationarchive_from_stream_with_messages(struct reb_simulationa
             int64_t objects = 0;
             // Input header.
             const int64_t bufsize = 64 - sizeof(struct reb_binary_field);
-            char readbuf[64], curvbuf[64];
+            char readbuf[64] = {0}, curvbuf[64];
             const char* header = "REBOUND Binary File. Version: ";
             sprintf(curvbuf,"%s%s",header+sizeof(struct reb_binary_field), reb_version_str);
 
@@ -180,7 +180,7 @@ void reb_read_simulationarchive_from_stream_with_messages(struct reb_simulationa
                     uses32bitoffsets = 0; // fallback to 16 bit 
                 }
             }
-            if (objects < 1){
+            if (objects < bufsize){ // header was cut off
                 *warnings |= REB_SIMULATION_BINARY_WARNING_CORRUPTFILE;
             }else{
                 // Note: following compares version, but ignores githash.
